@@ -51,22 +51,31 @@ def make_probe(scripts, log, extra_mode, restart_limit):
             self.active += 1
             log.append(("run_start", i, loop.time(), self.active, i >= len(scripts)))
             how = "?"
+            err = [None]
+
+            def spawn_extra():
+                t = asyncio.create_task(self._extra("extra-raises" if extra_mode.endswith("raises") else "extra-ends"))
+                self.extra_tasks.append(t)
+                self._tasks.add(t)
+
             try:
-                if extra_mode != "none" and i == 0:
-                    t = asyncio.create_task(self._extra(extra_mode))
-                    self.extra_tasks.append(t)
-                    self._tasks.add(t)
+                if extra_mode in ("extra-ends", "extra-raises") and i == 0:
+                    spawn_extra()
                 try:
                     for _ in range(n_awaits):
                         await asyncio.sleep(1.0)
+                    if extra_mode.startswith("extra-late") and i == 0:
+                        spawn_extra()  # registered late: after the first await point(s), just before the outcome
                     if outcome == "hang":
                         await loop.create_future()
                     elif outcome == "exc":
                         how = "exc"
-                        raise RuntimeError(f"run {i} failed")
+                        err[0] = RuntimeError(f"run {i} failed")
+                        raise err[0]
                     elif outcome == "base":
                         how = "base"
-                        raise BaseErr()
+                        err[0] = BaseErr()
+                        raise err[0]
                     how = "ret"
                     return
                 except asyncio.CancelledError:
@@ -75,12 +84,13 @@ def make_probe(scripts, log, extra_mode, restart_limit):
                         return
                     if on_cancel == "raise":
                         how = "cancel-raised-exception"
-                        raise RuntimeError(f"run {i}: cleanup failed")  # noqa: B904
+                        err[0] = RuntimeError(f"run {i}: cleanup failed")
+                        raise err[0]  # noqa: B904
                     how = "cancelled"
                     raise
             finally:
                 self.active -= 1
-                log.append(("run_end", i, loop.time(), how))
+                log.append(("run_end", i, loop.time(), how, err[0]))
 
     return Probe()
 
@@ -128,6 +138,8 @@ def make_scenario(scripts, restart_limit, extra_mode, max_controls):
                 rec = {"kind": kind, "t": loop.time(), "task": None, "snapshot": snapshot(), "seq": len(log)}
                 if kind in ("stop", "wait"):
                     rec["task"] = loop.create_task(deferred(kind, rec))
+                    rec["task"].add_done_callback(
+                        lambda _t, rec=rec: rec.__setitem__("done_later", {x for x in rec["snapshot"] if not x.done()}))
                     calls.append(rec)
                     return
                 log.append(("control", kind, loop.time()))
@@ -285,6 +297,11 @@ def make_scenario(scripts, restart_limit, extra_mode, max_controls):
                     continue
                 exc = None if t.cancelled() else t.exception()
                 surfaced = flatten(exc) if exc is not None else []
+                if c["kind"] == "wait" and exc is None and not t.cancelled():
+                    C["wait_returns_only_when_all_tasks_finished"] = C.get("wait_returns_only_when_all_tasks_finished", 0) + 1
+                    not_done = [x for x in c["snapshot"] if not x.done() or x in c.get("done_later", ())]
+                    if not_done:
+                        viol.append(("wait_returns_only_when_all_tasks_finished", {"unfinished": len(not_done), "called_at": c["t"]}))
                 if c["kind"] == "stop":
                     C["stop_waits_for_all_tasks"] = C.get("stop_waits_for_all_tasks", 0) + 1
                     not_done = [x for x in c["snapshot"] if not x.done()]
@@ -297,6 +314,31 @@ def make_scenario(scripts, restart_limit, extra_mode, max_controls):
                                 viol.append(("stop_surfaces_task_errors", {"lost": repr(x.exception())}))
                     if any(isinstance(s, asyncio.CancelledError) for s in surfaced):
                         viol.append(("stop_does_not_surface_cancellations", {"surfaced": [repr(s) for s in surfaced]}))
+            # after the final stop() nothing the service ever registered is left running
+            C["nothing_left_running_after_final_stop"] = C.get("nothing_left_running_after_final_stop", 0) + 1
+            fin = [c for c in calls if c.get("final")]
+            if fin and fin[0]["task"].done():
+                left = [x for x in all_tasks_seen if not x.done()]
+                if left:
+                    viol.append(("nothing_left_running_after_final_stop", {"still_running": len(left)}))
+            # the exception that ended the actor for good is surfaced by some stop()/wait() call,
+            # unless a later start() began a new incarnation before anybody waited
+            ends_ = [(k, e) for k, e in enumerate(log) if e[0] == "run_end"]
+            for k, e in ends_:
+                if e[4] is None:
+                    continue
+                nxt = [x for x in log[k + 1:] if x[0] in ("run_start", "epoch")]
+                if nxt:
+                    continue  # restarted (or a new incarnation): not the final error
+                if e[3] == "exc":
+                    ep_start = max([kk for kk, x in enumerate(log[:k]) if x[0] == "epoch"], default=0)
+                    n_prior = sum(1 for kk, ee in ends_ if ep_start <= kk < k and ee[3] == "exc")
+                    cancelled_before = any(x[0] == "control" and x[1] in ("cancel", "stop") for x in log[ep_start:k])
+                    if not cancelled_before and (restart_limit is None or n_prior < restart_limit):
+                        continue  # a restart was pending (and then cancelled): the failure had been handled
+                C["final_run_error_surfaced"] = C.get("final_run_error_surfaced", 0) + 1
+                if not any(e[4] is s_ for s_ in surfaced_all):
+                    viol.append(("final_run_error_surfaced", {"error": repr(e[4]), "how": e[3]}))
             for t in all_tasks_seen:
                 if t.done() and not t.cancelled():
                     t.exception()  # retrieved; keeps the loop's handler quiet
@@ -307,7 +349,7 @@ def make_scenario(scripts, restart_limit, extra_mode, max_controls):
                 e[0] == "run_end" and e[3].startswith("cancel") for e in log)
             obs.state_keys = [obs.outcome]
             obs.sample = {"scripts": scripts, "restart_limit": restart_limit, "extra": extra_mode,
-                          "trace": [list(map(str, e)) for e in log]}
+                          "trace": [list(map(str, e[:4])) for e in log]}
         return obs
 
     return scenario
@@ -335,7 +377,7 @@ def scripts_menu(tier):
 
 def configs(tier):
     limits = [0, 1, None] if tier == "quick" else [0, 1, 2, None]
-    extras = ["none", "extra-ends", "extra-raises"]
+    extras = ["none", "extra-ends", "extra-raises", "extra-late-ends", "extra-late-raises"]
     out = []
     for sc in scripts_menu(tier):
         for lim in limits:
